@@ -416,6 +416,22 @@ func cmdCheck(args []string) int {
 			}
 			allObls = append(allObls, &Obl{Name: "constmap/" + cm.Var, Kind: "constmap", Props: cm.Props, Text: what, Seq: 1 << 30, Custom: q})
 		}
+		// route tables (decided syntactically over the package)
+		for i, rt := range c.routes {
+			if !containsStr(rt.Props, *prop) {
+				continue
+			}
+			q := "(set-logic ALL)\n(assert false)\n(check-sat)\n"
+			what := "routetable " + rt.Text
+			if probs := c.checkRouteTable(rt, *prop); len(probs) > 0 {
+				// the declared table no longer fits the code: like any stale declaration, the replay
+				// witnesses registered under "routetable/" decide (a new route that authenticates
+				// first is not a violation; one that answers a rejected request is)
+				stale["routetable"] = append(stale["routetable"], probs...)
+				continue
+			}
+			allObls = append(allObls, &Obl{Name: fmtf("routetable/%d", i+1), Kind: "routetable", Props: rt.Props, Text: what, Seq: 1 << 30, Custom: q})
+		}
 		// regular-expression lemmas
 		for _, rd := range c.regexes {
 			if !containsStr(rd.Props, *prop) {
